@@ -372,12 +372,19 @@ fn sent_to(server: &mut RepliconServer, client: Entity, channel: usize) -> (Opti
 // TIER: quick
 // TIMEOUT: 900
 // DRIVES: collect_mappings, send_messages, ClientEntityMap::insert, SerializedData::write_mappings, Updates::set_mappings, Updates::send, Updates::is_empty, ClientTicks::set_update_tick, write_tick_cached
-// BOUNDS: 2 authorized clients; client 0 registers 2 mappings (server entities 1,2 -> client entities 43, 41), client 1 none (concrete scenario); one tick with nothing else to send; then a second tick; unwind 6
+// BOUNDS: 2 authorized clients; the first, then (second scenario) the second client in query order registers 2 mappings (server entities 1,2 -> client entities 43, 41), client 1 none (concrete scenario); one tick with nothing else to send; then a second tick; unwind 6
 #[kani::proof]
 #[kani::unwind(6)]
 #[kani::stub(<bytes::Bytes as core::ops::Drop>::drop, noop_bytes_drop)]
 #[kani::stub(log::max_level, log_off)]
 fn c16_mappings_sent_once_to_owner() {
+    mappings_scenario(0);
+    mappings_scenario(1);
+}
+
+/// `owner`: which of the two clients (in query order) registered the mappings.
+fn mappings_scenario(owner: usize) {
+    let other = 1 - owner;
     // Entity ids are concrete: a symbolic id makes the varint length, hence the message allocation
     // size, symbolic and reading the message back intractable (probe P23).
     let x: u32 = 3;
@@ -385,8 +392,8 @@ fn c16_mappings_sent_once_to_owner() {
         ClientRow::authorized(CLIENTS[0], 1200, None),
         ClientRow::authorized(CLIENTS[1], 1200, None),
     ];
-    rows[0].auth_mut().entity_map.insert(Entity::from_raw(1), Entity::from_raw(40 + x));
-    rows[0].auth_mut().entity_map.insert(Entity::from_raw(2), Entity::from_raw(41));
+    rows[owner].auth_mut().entity_map.insert(Entity::from_raw(1), Entity::from_raw(40 + x));
+    rows[owner].auth_mut().entity_map.insert(Entity::from_raw(2), Entity::from_raw(41));
     let mut server = server_with_channels();
     let mut serialized = SerializedData::default();
     let mut entity_buffer = EntityBuffer::default();
@@ -400,17 +407,17 @@ fn c16_mappings_sent_once_to_owner() {
 
     // The owner gets exactly one update message: flags = MAPPINGS only, tick 7, then the pairs
     // (unsized, last section); the other client gets nothing; the map is drained.
-    let (message, count) = sent_to(&mut server, CLIENTS[0], ServerChannel::Updates as usize);
+    let (message, count) = sent_to(&mut server, CLIENTS[owner], ServerChannel::Updates as usize);
     assert!(count == 1);
     let message = message.unwrap();
     assert!(message.len() == 6);
     assert!(message[0] == 0b0001 && message[1] == 7);
     assert!(message[2] == 1 << 1 && message[3] == ((40 + x) << 1) as u8);
     assert!(message[4] == 2 << 1 && message[5] == 41 << 1);
-    assert!(rows[0].auth().entity_map.is_empty());
-    assert!(rows[0].auth().ticks.update_tick() == tick);
+    assert!(rows[owner].auth().entity_map.is_empty());
+    assert!(rows[owner].auth().ticks.update_tick() == tick);
     // Nothing for the other client, and its update tick does not move.
-    assert!(rows[1].auth().ticks.update_tick() == RepliconTick::default());
+    assert!(rows[other].auth().ticks.update_tick() == RepliconTick::default());
 
     // Next tick (as `send_replication` does: clear, collect, send): nothing is sent again.
     serialized.clear();
@@ -425,7 +432,7 @@ fn c16_mappings_sent_once_to_owner() {
         leftovers += 1;
     }
     assert!(leftovers == 0);
-    assert!(rows[0].auth().ticks.update_tick() == tick);
+    assert!(rows[owner].auth().ticks.update_tick() == tick);
     kani::cover!(leftovers == 0, "second tick silent");
     kani::cover!(count == 1, "one update message for the owner");
     core::mem::forget((message, rows, server, serialized, entity_buffer));
@@ -893,4 +900,58 @@ fn c03_removals_follow_visibility() {
     removal_scenario(Policy::Whitelist, [1, 2]);
     kani::cover!(true, "all scenarios executed");
     kani::cover!(ENT_BYTE[0] == 0, "entity encoding as assumed");
+}
+
+// HARNESS: c01_two_entities_merge_then_mutation
+// PROPS: C01 C02
+// TIER: quick
+// TIMEOUT: 1500
+// DRIVES: collect_changes, Updates::take_added_entity, Mutations::pop, Mutations::add_entity, Mutations::add_component
+// BOUNDS: two entities in one archetype (components A and B); in one tick entity 0 has A mutated and B inserted (its mutation is merged into the update message), entity 1 has only A mutated: entity 1's mutate record must contain exactly its own single component; concrete scenario; unwind 6
+#[kani::proof]
+#[kani::unwind(6)]
+#[kani::stub(log::max_level, log_off)]
+fn c01_two_entities_merge_then_mutation() {
+    let this_run = Tick::new(5000);
+    let change_tick = SystemChangeTick { last_run: ago(this_run, LAST_RUN_AGE), this_run };
+    let old = ComponentTicks { added: ago(this_run, 900), changed: ago(this_run, 900) };
+    let mutated = ComponentTicks { added: ago(this_run, 900), changed: ago(this_run, 5) };
+    let inserted = ComponentTicks { added: ago(this_run, 5), changed: ago(this_run, 5) };
+    let entity = |id: Entity, a: ComponentTicks, b: ComponentTicks| FakeEntity {
+        id,
+        marker_ticks: old,
+        components: vec![FakeComponent { value: 0x81, ticks: a }, FakeComponent { value: 0x82, ticks: b }],
+    };
+    let world = ServerWorld {
+        archetypes: vec![FakeArchetype {
+            entities: vec![entity(ENTS[0], mutated, inserted), entity(ENTS[1], mutated, old)],
+            replicated: ReplicatedArchetype {
+                components: vec![
+                    (ComponentRule::new(ComponentId::new(0), fns_id(0)), StorageType::Table),
+                    (ComponentRule::new(ComponentId::new(1), fns_id(1)), StorageType::Table),
+                ],
+            },
+        }],
+    };
+    let mut rows = [ClientRow::authorized(CLIENTS[0], 1200, None)];
+    for e in ENTS {
+        rows[0].auth_mut().ticks.set_mutation_tick(e, ago(this_run, 100));
+    }
+    let removal_buffer = RemovalBuffer::default();
+    let related = RelatedEntities::default();
+    let mut serialized = SerializedData::default();
+    rows[0].auth_mut().mutations.resize_related(0);
+    collect_changes(&mut serialized, &mut Query::new(&mut rows), &ReplicationRegistry, &AppTypeRegistry, &related, &removal_buffer, &world, &change_tick, RepliconTick::new(4)).unwrap();
+    let auth = rows[0].auth();
+    // Entity 0: insertion of B + merged mutation of A in the update message; entity 1: one mutation.
+    assert!(upd::changes_len(&auth.updates) == 1);
+    assert!(upd::change_components_len(&auth.updates, 0) == 2);
+    assert!(mutv::standalone_len(&auth.mutations) == 1);
+    assert!(mutv::standalone_components_len(&auth.mutations, 0) == 1);
+    assert!(mutv::standalone_ranges_len(&auth.mutations, 0) == 1);
+    assert!(auth.ticks.mutation_tick(ENTS[0]) == Some(this_run));
+    assert!(auth.ticks.mutation_tick(ENTS[1]) == Some(ago(this_run, 100)));
+    kani::cover!(true, "scenario executed");
+    kani::cover!(LAST_RUN_AGE == 10, "age classes as documented");
+    core::mem::forget((rows, world, serialized, removal_buffer, related));
 }
